@@ -30,7 +30,7 @@ func init() {
 var mrNames = []string{"True", "False", "NoData", "OptionalNoData"}
 
 func runC11(x *Ctx) {
-	x.C.Rule("C11.R1", "statement kinds: constants = evaluator cases = decoder cases; struct types agree", 4)
+	x.C.Rule("C11.R1", "statement kinds: constants = evaluator cases = decoder cases; struct types agree; constructors faithful", 14)
 	x.C.Rule("C11.R2", "comparator wiring and truth sets; equality; negation table", 12)
 	x.C.Rule("C11.R3", "and/or/all/any fold tables and laws (permutation invariance, monotonicity, corners)", 8)
 	x.C.Rule("C11.R4", "missing data: selector error -> NoData, optional miss -> OptionalNoData; kind mismatches -> False", 18)
@@ -105,37 +105,8 @@ func runC11(x *Ctx) {
 		}
 	}
 	x.C.Obl("C11.R1", "decoder-evaluator-agree", x.pos(ms), "for every kind the decoder creates the struct type that the evaluator's case asserts", bad == "", bad)
-	// constructors create matching types as well
-	bad = ""
-	nC := 0
-	for _, f := range x.P.ModuleFuncs() {
-		if x.P.PkgPathOf(f) != load.Module+"/pkg/policy" || f.Parent() == nil {
-			continue
-		}
-		for _, p := range x.pathsQuiet(f) {
-			if p.End != paths.EndReturn || len(p.Results()) != 2 {
-				continue
-			}
-			cell := paths.CellOf(p.Results()[0])
-			if cell == nil {
-				continue
-			}
-			typ := paths.Short(cell.Type().Underlying().(*types.Pointer).Elem().String())
-			fs := p.FieldStores(cell)
-			k, has := fs["kind"]
-			if !has {
-				continue
-			}
-			nC++
-			if k.Op == "const" {
-				kk := strings.Trim(k.Name, `"`)
-				if evalCases[kk] != typ {
-					bad += fmt.Sprintf("%s builds a %s with kind %q but the evaluator asserts %s for that kind\n", load.ShortName(f), typ, kk, evalCases[kk])
-				}
-			}
-		}
-	}
-	x.C.Obl("C11.R1", "constructors-agree", x.pos(ms), fmt.Sprintf("the %d constructor closures that set a kind build the struct type the evaluator asserts for it", nC), bad == "" && nC >= 9, bad)
+	// constructors create matching types as well, from exactly their own parameters
+	constructorRules(x, ms, evalCases)
 	// encoder arms
 	if enc := x.fn("C11.R1", "pkg/policy.statementToIPLD"); enc != nil {
 		arms := map[string]bool{}
@@ -177,6 +148,11 @@ func runC11(x *Ctx) {
 				}
 			}
 			if !sat {
+				// outside the deciding paths nothing may answer True: a leaf statement holds only through its comparison
+				if p.End == paths.EndReturn && p.Results()[0].IsConst(fmt.Sprint(mr["True"])) {
+					ok = false
+					detail += "True is returned without the comparison having been evaluated on the selected value:\n" + p.String() + "\n"
+				}
 				continue
 			}
 			n++
@@ -245,6 +221,12 @@ func runC11(x *Ctx) {
 				if r.Name != "false" {
 					ok = false
 					detail += "returns constant " + r.Name + "\n"
+				}
+				// closed world: an ordering is false only because the operands are not two integers / two floats, a
+				// conversion failed, or a float is NaN / infinite. Any other cause makes comparable numbers incomparable.
+				if !orderedFalseCause(p, kInt, kFloat) {
+					ok = false
+					detail += "returns false for two comparable numbers for another reason than kind mismatch, conversion error, NaN or infinity:\n" + p.String() + "\n"
 				}
 				continue
 			}
@@ -393,6 +375,145 @@ func runC11(x *Ctx) {
 
 	// ---------------- R5
 	policyMatchTable(x, "C11.R5", "(pkg/policy.Policy).PartialMatch", map[string]string{"True": "continue", "OptionalNoData": "continue", "NoData": "continue", "False": "false"})
+}
+
+// constructorRules: each exported statement constructor returns a function (a closure today; a shared
+// constructor helper or a method value would do) that, when it succeeds, builds the struct type the evaluator
+// asserts for the constructor's kind, with that kind, the parsed form of the selector parameter and the value /
+// pattern / inner statements given - nothing rewritten, swapped or dropped.
+func constructorRules(x *Ctx, ms *ssa.Function, evalCases map[string]string) {
+	parse := "call[pkg/policy/selector.Parse](arg0)#0"
+	type want struct {
+		kind   string
+		fields map[string]string
+	}
+	eqf := func(k string) want { return want{k, map[string]string{"selector": parse, "value": "arg1"}} }
+	table := map[string]want{
+		"Equal": eqf("=="), "GreaterThan": eqf(">"), "GreaterThanOrEqual": eqf(">="), "LessThan": eqf("<"), "LessThanOrEqual": eqf("<="),
+		"Not":  {"not", map[string]string{"statement": "dyncall(arg0)#0"}},
+		"And":  {"and", map[string]string{"statements": "call[pkg/policy.assemble](arg0)#0"}},
+		"Or":   {"or", map[string]string{"statements": "call[pkg/policy.assemble](arg0)#0"}},
+		"Like": {"like", map[string]string{"selector": parse, "pattern": "call[pkg/policy.parseGlob](arg1)#0"}},
+		"All":  {"all", map[string]string{"selector": parse, "statement": "dyncall(arg1)#0"}},
+		"Any":  {"any", map[string]string{"selector": parse, "statement": "dyncall(arg1)#0"}},
+	}
+	var names []string
+	for n := range table {
+		names = append(names, n)
+	}
+	sort.Strings(names)
+	for _, name := range names {
+		w := table[name]
+		outer := x.fn("C11.R1", "pkg/policy."+name)
+		if outer == nil {
+			continue
+		}
+		ops := x.pathsQuiet(outer)
+		if len(ops) != 1 || ops[0].End != paths.EndReturn {
+			x.C.Unresolved("C11.R1", "constructor-shape:"+name, x.pos(outer), fmt.Sprintf("expected one straight path returning the constructor function, found %d", len(ops)))
+			continue
+		}
+		inner, bind := x.closureEnv(ops[0], ops[0].Results()[0])
+		if inner == nil || len(inner.Blocks) == 0 {
+			x.C.Unresolved("C11.R1", "constructor-value:"+name, x.pos(outer), "the value returned is not a function literal, function or method value: "+ops[0].Results()[0].String())
+			continue
+		}
+		inOuter := func(t *paths.Term) string {
+			s := t.String()
+			for fv, par := range bind {
+				s = strings.ReplaceAll(s, fv, par)
+			}
+			return s
+		}
+		sel, unk, err := x.E.Select(inner, paths.WantSuccess)
+		ok := err == nil && len(unk) == 0 && len(sel) > 0
+		detail := ""
+		for _, v := range sel {
+			cell := paths.CellOf(v.Results()[0])
+			if cell == nil {
+				ok = false
+				detail += "returns " + v.Results()[0].String() + "\n"
+				continue
+			}
+			typ := paths.Short(cell.Type().Underlying().(*types.Pointer).Elem().String())
+			if evalCases[w.kind] != typ {
+				ok = false
+				detail += fmt.Sprintf("builds a %s but the evaluator asserts %s for kind %q\n", typ, evalCases[w.kind], w.kind)
+			}
+			fs := v.FieldStores(cell)
+			wantN := len(w.fields)
+			if k, has := fs["kind"]; has {
+				wantN++
+				if got := inOuter(k); got != fmt.Sprintf("const(%q)", w.kind) {
+					ok = false
+					detail += fmt.Sprintf("sets kind %s, want %q\n", got, w.kind)
+				}
+			} else if w.kind != "not" && w.kind != "like" {
+				ok = false
+				detail += "does not set the kind\n"
+			}
+			for fld, wv := range w.fields {
+				got := "<unset>"
+				if fs[fld] != nil {
+					got = inOuter(fs[fld])
+				}
+				if got != wv {
+					ok = false
+					detail += fmt.Sprintf("field %s = %s, want %s (in terms of %s's parameters)\n", fld, got, wv, name)
+				}
+			}
+			if len(fs) != wantN {
+				ok = false
+				detail += fmt.Sprintf("%d fields set, want %d\n", len(fs), wantN)
+			}
+			// inner statements / glob are used only after their own construction succeeded
+			for _, wv := range w.fields {
+				if strings.HasSuffix(wv, "#0") && wv != parse {
+					errAtom := eqs(strings.TrimSuffix(wv, "#0")+"#1", "const(nil)")
+					found := false
+					for _, f := range v.AllFacts() {
+						if f.Pol && inOuter(f.Atom) == errAtom {
+							found = true
+						}
+					}
+					if !found {
+						ok = false
+						detail += "succeeds without " + strings.TrimSuffix(wv, "#0") + " having succeeded\n"
+					}
+				}
+			}
+		}
+		x.C.Obl("C11.R1", "constructor:"+name, x.pos(outer), "the constructor builds the statement of its kind from exactly its own parameters", ok, dedupLines(detail))
+	}
+}
+
+// orderedFalseCause tells whether a `return false` path of isOrdered carries one of the recognised causes.
+func orderedFalseCause(p *paths.Path, kInt, kFloat int64) bool {
+	kindOf := func(arg string, k int64) (bool, bool) {
+		return p.FactOn(eqs(fmt.Sprintf("const(%d)", k), "invoke[github.com/ipld/go-ipld-prime.Node.Kind]("+arg+")"))
+	}
+	bothInt, bothFloat := true, true
+	for _, arg := range []string{"arg0", "arg1"} {
+		if pol, has := kindOf(arg, kInt); !has || !pol {
+			bothInt = false
+		}
+		if pol, has := kindOf(arg, kFloat); !has || !pol {
+			bothFloat = false
+		}
+	}
+	if !bothInt && !bothFloat {
+		return true // kind mismatch / unsupported kinds
+	}
+	for _, f := range p.Facts {
+		s := f.Atom.String()
+		switch {
+		case f.Atom.Op == "eq" && !f.Pol && strings.Contains(s, "const(nil)") && (strings.Contains(s, "Node.AsInt](") || strings.Contains(s, "Node.AsFloat](")) && strings.HasSuffix(strings.TrimSuffix(strings.Replace(s, ",const(nil))", "", 1), ")"), "#1"):
+			return true // conversion error
+		case f.Pol && f.Atom.Op == "call" && (f.Atom.Name == "math.IsNaN" || f.Atom.Name == "math.IsInf"):
+			return true
+		}
+	}
+	return false
 }
 
 func mentions(p *paths.Path, term string) bool {
